@@ -294,7 +294,15 @@ def cap_unconditional(rep, F, tag):
                     g = F.by_key[clo[1][1]][0]
                     if any(x.callee.name == 'min' for x in g.calls):
                         ups = [canon(o) for o in clo[2]]
+                        body_ = canon(g.sym_local(0))
+                        R.check(re.fullmatch(r'min\(arg2, arg1\.(_ref__)?\w+\)|min\(arg1\.(_ref__)?\w+, arg2\)', body_) is not None, 'cap-is-min' + tag,
+                                'the cap maps an entry x to %s, expected min(x, bound)' % body_, g.loc())
                         caps.append((c, canon(a[0]), ups))
+        # the cap is one-sided: only +infinity-like right-hand sides are limited; a two-sided clip alters large negative entries (real constraints)
+        two_sided = [c for c in f.calls if c.callee.name == 'clip' and 'b' in canon(f.sym_operand(c.args[0]))[:40] and 'get_infinity' in ''.join(canon(f.sym_operand(a)) for a in c.args[1:])]
+        R.check(not two_sided, 'cap-one-sided' + tag, 'DefaultProblemData::new clips b on both sides (%s): entries below -bound are finite data and must be kept' % [canon(f.sym_operand(a))[:40] for c in two_sided for a in c.args[1:]], f.loc())
+        if two_sided:
+            return
         if not R.check(len(caps) >= 1, 'cap-exists' + tag,
                        'DefaultProblemData::new has no unconditional elementwise min(b, bound) pass over the internal b', f.loc()):
             return
